@@ -19,6 +19,37 @@ func init() {
 	gens["c04-errors"] = c04Errors
 	gens["c04-bodybytes"] = c04BodyBytes
 	gens["c04-long"] = c04Long
+	gens["c04-runes"] = c04Runes
+}
+
+// c04Runes: multi-byte text (every Unicode white-space code point, invisible characters,
+// malformed UTF-8) at the start, in the middle and at the end of the body, single and doubled:
+// "trimmed" means the same for ParseLogLine and Parse, and nothing else is removed.
+func c04Runes(c *enumx.Ctx) {
+	shapes := []string{"%s", " %s", "%s ", " a=b%s", " a=b %s", " %sa=b", " %s a=b", " a=%sb c=d", " a=b%s c=d", " a=b\t%s\n"}
+	for _, r := range enumx.HostileRunes {
+		for _, rep := range []int{1, 2} {
+			for _, shape := range shapes {
+				for _, t := range []uint16{1300, 1112} {
+					if !c.Mine() {
+						continue
+					}
+					body := fmt.Sprintf(shape, strings.Repeat(r, rep))
+					checkSuccess(c, header{auparse.AuditMessageType(t).String(), t, "1700000000", "123", "42", body})
+				}
+			}
+		}
+	}
+	// pairs of different fragments at the end (mixed white space)
+	for _, a := range enumx.HostileRunes {
+		for _, b := range enumx.HostileRunes {
+			if !c.Mine() {
+				continue
+			}
+			checkSuccess(c, header{"SYSCALL", 1300, "1700000000", "123", "42", " a=b" + a + b})
+		}
+	}
+	c.Sample("type=SYSCALL msg=audit(1700000000.123:42): a=b\u00a0 => RawData trimmed the same way by ParseLogLine and Parse")
 }
 
 // c04Long: long bodies and long type-name / number parts (limits such as the kernel's 8970
@@ -142,6 +173,19 @@ func checkSuccess(c *enumx.Ctx, h header) {
 		for k, w := range wantKeys {
 			if g, _ := ms2[k].(string); g != w {
 				c.Report("C04 tomapstr:"+k, fmt.Sprintf("ToMapStr()[%q] = %q, want %q from the header of %q", k, ms2[k], w, line), nil)
+				ok = false
+			}
+		}
+		// "always": also after the caller has post-processed the map it was given (dropped raw_msg,
+		// renamed @timestamp, turned the sequence into a number) - the next ToMapStr starts from the header
+		delete(ms2, "raw_msg")
+		delete(ms2, "@timestamp")
+		ms2["sequence"] = seq
+		ms2["record_type"] = "scribbled"
+		ms3 := m.ToMapStr()
+		for k, w := range wantKeys {
+			if g, _ := ms3[k].(string); g != w {
+				c.Report("C04 tomapstr-after-edit:"+k, fmt.Sprintf("after the caller edited the map returned by ToMapStr, the next ToMapStr()[%q] = %v, want %q from the header of %q", k, ms3[k], w, line), nil)
 				ok = false
 			}
 		}
